@@ -146,7 +146,7 @@ PROPS["C15"] = {
         {"id": "feed",
          "quick": ["c15::c15_feed_into_closure_4", "c15::c15_feed_into_mut_closure_4", "c15::c15_extend_closure_4",
                    "c15::c15_collect_vec_3", "c15::c15_collect_extend_3", "c15::c15_call_forwards",
-                   "c15::c15_feed_twice_same_callback", "c15::c15_collect_vec_beyond_capacity",
+                   "c15::c15_feed_twice_same_callback", "c15::c15_feed_borrowed_source_takes_only_what_it_offers", "c15::c15_collect_vec_beyond_capacity",
                    "c15::c15_items_dropped_once", "c15::c15_citer_same_items_4", "c15::c15_citer_interleave_4",
                    "c15::c15_citer_items_owned_once", "c15::c15_citer_unbounded_source", "c15::c15_citer_not_fused_source", "c15::c15_citer_provided_methods_owned_once", "c15::c15_negative_twin"],
          "thorough_adds": ["c15::c15_feed_into_closure_6", "c15::c15_feed_into_mut_closure_6", "c15::c15_extend_closure_6",
